@@ -11,6 +11,9 @@ CHECKS = {
  "C16": ("exploration", "exhaustive runtime evaluation of selection and order laws on the real search/compare functions",
          "Exhaustive over a 40-platform universe: every requested platform x every ordered list (so every permutation) of length ≤3 over universe+nil, length-4 lists over the ≤12 compatible-or-adjacent entries, order laws on all triples, parse/print laws on the component cross product, plus ManifestGet with the platform option against the model registry. exhaustive:true refers to that universe only.",
          "'can run' is judged by the package's Compatible AND an independent oracle; a violation needs both to reject. platform.Local() is linux/amd64 here.", "§3 C16"),
+ "C17": ("exploration", "in-package invariant monitor + porcupine history check + race detector over seeded concurrent scenarios; server-side running-request counter at the public API",
+         "≈30 k seeded concurrent scenarios per quick run inside internal/pqueue (holder-count upper bound, quiescence invariants, state-based deadlock predicate, linearizability of acquire/release histories against a counting semaphore, coverage counters proving that the cancel-vs-release hand-over branch ran) under -race, plus image/blob copies with per-host limits 1-3 where model registries count simultaneously running requests. Held on the interleavings produced, not all interleavings.",
+         "The overlay test is compiled into /repo/internal/pqueue with go test -overlay (nothing written into /repo). Holder counter under-approximates; deadlock verdicts are state based. ocidir / regsync throttles reuse the same queue type and are not driven separately.", "§3 C17"),
 }
 NOT_APPLICABLE = {}
 
